@@ -4,9 +4,12 @@ import snowflake.connector.errors
 from sqlglot import exp
 
 
-# matches a variable reference (group 1 is its name), or text in which a $ is not a reference: a string literal
-# ('..' with '' or backslash escapes, or $$..$$) or a quoted identifier
-_REFERENCE_OR_QUOTED = re.compile(r"""'(?:[^'\\]|''|\\.)*'|\$\$.*?\$\$|"(?:[^"]|"")*"|(?<!\$)\$(\w+)""", re.DOTALL)
+# matches a variable reference (group 1 is its name), or text in which a $ is not a reference and a quote does not
+# open a string: a comment (-- .. or /* .. */), a string literal ('..' with '' or backslash escapes, or $$..$$) or a
+# quoted identifier
+_REFERENCE_OR_QUOTED = re.compile(
+    r"""--[^\n]*|/\*.*?\*/|'(?:[^'\\]|''|\\.)*'|\$\$.*?\$\$|"(?:[^"]|"")*"|(?<!\$)\$(\w+)""", re.DOTALL
+)
 
 
 # Implements snowflake variables: https://docs.snowflake.com/en/sql-reference/session-variables#using-variables-in-sql
